@@ -37,6 +37,18 @@ CHECKS = {
          "Exploration. 'Interpreter binaries' of every length over one (quick) / two (thorough) full periods of the scanner geometry (4096-byte blocks + 28-byte look-ahead), with '#'-free, '#'-per-block, dense-'#' fillers and 30 marker fragments planted at every gap 0..32 before the true marker around each read boundary, are packed with 6 project trees (flat, nested, empty file, all 256 byte values, names with spaces, large). RunPackedBinary (through the verif IO hook) must call exit with the entry's result, the recovered file map (pack.files hook) must equal the tree byte for byte, and the archive is re-opened independently at len(binary)+len(marker). A sample of every enumeration goes through the real Pack (byte-identical to the assembled target).",
          "Precondition: the filler never contains the complete marker (a real interpreter binary does not: the marker is assembled at run time). Most sweep cases assemble binary+marker+reference archive instead of calling Pack (checked byte-identical on the sampled Pack cases).",
          "DESIGN.md 4/C20"),
+ "C07": ("rapid-generated byte strings, token soups and mutations of valid programs + exhaustive truncation/stray-token enumerations + native fuzzing; tree schema, error-position and goroutine-leak oracles",
+         "Exploration. Inputs: random bytes (invalid UTF-8, NUL), token soups over the complete vocabulary, and mutations (delete/duplicate/swap tokens, unbalanced brackets, stray ; ) } ], truncation at every token) of a 292-program corpus and of generated nested programs; every truncation and every stray-token insertion of the corpus is enumerated. Oracle: Parse returns within a watchdog bound; exactly one of (tree, error); errors are parser.Error of a documented type positioned inside the input; trees have no nil node, known node kinds and the child arities the walkers index unchecked (schema extracted from interpreter/rt_*.go and prettyprinter.go), and PrettyPrint / ParseWithRuntime+Validate do not panic on them; no goroutine with parser frames stays in 'chan send' after the call. Thorough adds FuzzParse (431 seeds).",
+         "Parses run one at a time in an otherwise idle process (goroutine accounting). A hang verdict needs 20 watchdog ticks; a goroutine-count rise without a parked parser goroutine is only counted.",
+         "DESIGN.md 4/C07, Appendix A"),
+ "C12": ("rapid-generated multi-threaded mutex programs (direct evaluation and sink threads) with Go-side occupancy probes; directed rendezvous cases; stuck-state verdicts",
+         "Exploration. 2-16 threads (direct Eval with distinct thread ids, sink invocations on pool workers, cascades, mixed) run generated bodies with blocks over 1-3 names, nesting <= 3, re-entry, and every exit kind (fall through, error, return, break, continue, caught by an outer try, propagating out of the thread). Go probe functions registered in the stdlib observe entry/exit: no other thread may be inside a name at entry; read-yield-write counters must not lose updates; all threads finish; every named mutex is free (TryLock) and the owner table is clear at the end; 78 directed cases park a holder inside a block to make non-exclusion of different names and release-after-error deterministic.",
+         "Schedules are sampled, not enumerated (no hook inside mutexRuntime.Eval); deadlock-type verdicts use the stuck-state rule (60 s bound AND a provably final state, otherwise inconclusive = exit 2).",
+         "DESIGN.md 4/C12"),
+ "C14": ("exhaustive piece-sequence enumeration + rapid generation + native fuzzing of string literals against a single-pass reference and a side-effect counter",
+         "Exploration. Literals are built from pieces {text, {{, }}, {, }, quotes, escapes, newline, expression} in every order up to 4/3 (quick) or 5/4 (thorough) pieces for quoted/raw forms, each under 6 values of the substituted variable (including values that contain {{tick()}}, {{x}} (self-reproducing), }} and {{); random literals to 8 pieces; thorough adds FuzzInterpolate. Oracle: the harness's own single left-to-right pass (leftmost {{, nearest following }}, continue after the substituted text, raw strings untouched), the number of tick() side effects written in the literal itself, termination within a node-visit budget (step-counting debugger), no panic.",
+         "Empty {{}}, code the reference does not know and the text of an inline error marker are wildcard slots (the documentation leaves them open).",
+         "DESIGN.md 4/C14"),
  "C17": ("exhaustive enumeration + rapid random generation of (root, path) pairs against a sentinel-file oracle",
          "Exploration. Every (root form x path) pair over a 7-segment alphabet up to length 4 (quick) / 6 (thorough) is enumerated completely against a directory tree in which every reachable location, inside and outside the root, holds a sentinel naming its own canonical path; random longer paths with hostile segments are added by rapid, both through Resolve and through ECAL import statements. A returned content that names a location outside the lexical root is a violation. Exhaustive within the bound, sampled beyond; no absence proof for longer paths.",
          "Trusts the harness's 10-line stack normaliser for the root only (the content oracle is independent of any normaliser); symlinks are out of scope (the statement says lexically inside).",
